@@ -43,6 +43,7 @@ import (
 	"github.com/gogpu/naga/ir"
 	"github.com/gogpu/naga/msl"
 	"github.com/gogpu/naga/spirv"
+	"github.com/gogpu/naga/wgsl"
 )
 
 type job = common.Job
@@ -74,6 +75,24 @@ func lower(src string) (m *ir.Module, class string) {
 	return mod, ""
 }
 
+// warnDigest: digest of the warnings (message, span) returned by the lowerer, in the order returned.
+func warnDigest(src string) (out string) {
+	defer func() {
+		if r := recover(); r != nil {
+			out = "PANIC"
+		}
+	}()
+	ast, err := naga.Parse(src)
+	if err != nil {
+		return "ERR"
+	}
+	r, err := wgsl.LowerWithWarnings(ast, src)
+	if err != nil {
+		return "ERR"
+	}
+	return fmt.Sprintf("%d/%s", len(r.Warnings), hashValue(r.Warnings))
+}
+
 func spvOptions(debug bool) spirv.Options {
 	o := spirv.DefaultOptions()
 	o.Debug = debug
@@ -83,6 +102,32 @@ func spvOptions(debug bool) spirv.Options {
 func digest(b []byte) string {
 	h := sha256.Sum256(b)
 	return fmt.Sprintf("%d:%s", len(b), hex.EncodeToString(h[:12]))
+}
+
+// a back end must not alter the options object it is given either (maps and pointers inside
+// Options are shared with the caller): digests before/after every call.
+var (
+	optMu      sync.Mutex
+	optMutated = map[string]int{}
+)
+
+func noteOptions(target, before, after string) {
+	if before != after {
+		optMu.Lock()
+		optMutated[target]++
+		optMu.Unlock()
+	}
+}
+
+func optionsMutated() []string {
+	optMu.Lock()
+	defer optMu.Unlock()
+	var out []string
+	for t := range optMutated {
+		out = append(out, t)
+	}
+	sort.Strings(out)
+	return out
 }
 
 // runTarget runs one backend on mod and returns the digest of its observable
@@ -106,13 +151,19 @@ func runTarget(target string, mod *ir.Module, be *spirv.Backend) (out string, de
 		}
 		return digest(bin), ""
 	case "hlsl":
-		s, info, err := hlsl.Compile(mod, hlsl.DefaultOptions())
+		o := hlsl.DefaultOptions()
+		ob := hashValue(o)
+		s, info, err := hlsl.Compile(mod, o)
+		noteOptions("hlsl", ob, hashValue(o))
 		if err != nil {
 			return "ERR", err.Error()
 		}
 		return digest([]byte(s)) + "/" + hashValue(info), ""
 	case "msl":
-		s, info, err := msl.Compile(mod, msl.DefaultOptions())
+		o := msl.DefaultOptions()
+		ob := hashValue(o)
+		s, info, err := msl.Compile(mod, o)
+		noteOptions("msl", ob, hashValue(o))
 		if err != nil {
 			return "ERR", err.Error()
 		}
@@ -122,7 +173,9 @@ func runTarget(target string, mod *ir.Module, be *spirv.Backend) (out string, de
 		for i := range mod.EntryPoints {
 			o := glsl.DefaultOptions()
 			o.EntryPoint = mod.EntryPoints[i].Name
+			ob := hashValue(o)
 			s, info, err := glsl.Compile(mod, o)
+			noteOptions("glsl", ob, hashValue(o))
 			if err != nil {
 				parts = append(parts, "ERR")
 				detail += err.Error() + "; "
@@ -132,7 +185,10 @@ func runTarget(target string, mod *ir.Module, be *spirv.Backend) (out string, de
 		}
 		return strings.Join(parts, ","), detail
 	case "dxil":
-		bin, err := dxil.Compile(mod, dxil.DefaultOptions())
+		o := dxil.DefaultOptions()
+		ob := hashValue(o)
+		bin, err := dxil.Compile(mod, o)
+		noteOptions("dxil", ob, hashValue(o))
 		if err != nil {
 			return "ERR", err.Error()
 		}
@@ -381,6 +437,20 @@ func doOutputs(j *job, res map[string]any) {
 	mutPaths := map[string]any{}
 	for _, t := range targetsOf(j) {
 		first := ""
+		if t == "warn" {
+			// front-end diagnostics (wgsl.LowerWithWarnings): part of the compiler's observable result
+			for r := 0; r < repeat; r++ {
+				o := warnDigest(src)
+				if r == 0 {
+					first = o
+				} else if o != first {
+					unstable = append(unstable, t)
+					break
+				}
+			}
+			outs[t] = first
+			continue
+		}
 		for r := 0; r < repeat; r++ {
 			m, _ := lower(src)
 			if m == nil {
@@ -413,6 +483,7 @@ func doOutputs(j *job, res map[string]any) {
 	res["mutated"] = mutated
 	res["mutated_paths"] = mutPaths
 	res["lower_unstable"] = lowerUnstable
+	res["options_mutated"] = optionsMutated()
 }
 
 // ------------------------------------------------------------------ history on one reused spirv.Backend
@@ -584,6 +655,7 @@ func doPerm(j *job, res map[string]any) {
 	}
 	res["steps"] = steps
 	res["bad"] = bad
+	res["options_mutated"] = optionsMutated()
 }
 
 // ------------------------------------------------------------------ concurrency
@@ -697,4 +769,5 @@ func doConcurrent(j *job, res map[string]any) {
 	}
 	res["units"] = units
 	res["bad"] = bad
+	res["options_mutated"] = optionsMutated()
 }
